@@ -18,6 +18,7 @@ pub struct RMsg;
 impl Message for RMsg {}
 
 pub struct Dummy;
+#[cfg_attr(feature = "asynctrait", ractor::async_trait)]
 impl Actor for Dummy {
     type Msg = RMsg;
     type State = ();
@@ -311,6 +312,7 @@ pub fn batch(out: &str, tier: &str, seed: u64) -> Value {
 // Reproduction of the recorded finding through the public API (no hooks, no scheduling control)
 // ------------------------------------------------------------------------------------------------
 struct Quiet;
+#[cfg_attr(feature = "asynctrait", ractor::async_trait)]
 impl Actor for Quiet {
     type Msg = RMsg;
     type State = ();
